@@ -74,3 +74,21 @@ Definition c06_run (p : policy) (es : list entry) (ch : list Z) (pm : list (list
     ++ [zlen (live_of (s_q st))] ++ flat_map (fun kt => [fst kt; snd kt]) (live_of (s_q st))
     ++ [zlen outs] ++ flat_map enc_fout outs
   end.
+
+(* the same, for any kind of acquisition chunk (PipelineData or ndarray, one or two channels); added for the
+   coverage audit, c06_run = c06_runk false false *)
+Definition c06_runk (annot multi : bool) (p : policy) (es : list entry) (ch : list Z) (pm : list (list Z))
+           (B n pre : Z) (steps : list step) : list Z :=
+  let X := {| x_val := val64; x_K := zlen es; x_n := n; x_pre := pre |} in
+  match run_steps all_rep X (cinit (qinit p es ch pm)) steps with
+  | None => [0]
+  | Some (st, fs) =>
+    let outs := run B (mkkind annot multi) fs in
+    [1;
+     if wf_queue p es && minlen es && forallb (fun e => e_len e <=? n) es && (pre =? 0)
+        && wf_steps all_rep (cinit (qinit p es ch pm)) steps && is_nil (s_notes st) then 1 else 0;
+     if poststim_fits es n (s_added st) (live_of (s_q st)) then 1 else 0;
+     zlen (s_P st)] ++ map val64 (s_P st)
+    ++ [zlen (live_of (s_q st))] ++ flat_map (fun kt => [fst kt; snd kt]) (live_of (s_q st))
+    ++ [zlen outs] ++ flat_map enc_fout outs
+  end.
